@@ -623,7 +623,7 @@ def install(eng):
             r = M.array_from_seq(eng, v)
         elif isinstance(v, I.GeneratorValue):
             r = I.Arr((), lambda: v, "obj")
-        elif type(v).__name__ == "LazySeq":
+        elif type(v).__name__ in ("LazySeq", "SymList"):
             r = M.array_from_lazy(eng, v)
         elif isinstance(v, M.RangeVal):
             r = _arange(eng, v.start, v.stop, v.step)
